@@ -19,7 +19,7 @@ ASSUMES = ["values are immutable in the model: aliasing of a mutable n_obs list 
            "adjust_fdr/adjust_fwer read alpha at call time: covered by the C19 entry-point grid, not by this state machine"]
 
 STD = ["alpha", "alternative", "confidence_level", "equal_var", "n_obs", "n_resamples", "power", "ratio", "use_t"]
-USER = ["foo", "bar"]
+USER = ["foo", "bar", "correction"]     # `correction` is not a standard option, but auto_check knows the name (bool)
 NAMES = STD + USER
 CTOR = ["alternative", "confidence_level", "equal_var", "use_t", "alpha", "ratio", "power", "n_obs"]
 DEFAULTS = {"alpha": 0.05, "alternative": "two-sided", "confidence_level": 0.95, "equal_var": False, "n_obs": None,
@@ -40,7 +40,7 @@ class Box:
 
 def valid_idx(pool, name, rng):
     good = {"alpha": [0.01, 0.1, 0.5], "power": [0.5, 0.9], "confidence_level": [0.9, 0.5], "alternative": ["greater", "less"],
-            "equal_var": [True, False], "use_t": [True, False], "n_obs": [100, (100, 200)], "n_resamples": [100, 7],
+            "equal_var": [True, False], "use_t": [True, False], "correction": [True, False], "n_obs": [100, (100, 200)], "n_resamples": [100, 7],
             "ratio": [2, 2.5, 0.5]}
     if name in good:
         v = rng.choice(good[name])
